@@ -63,6 +63,20 @@ EDITS = [
     ("matcher: dead assignment removed and comprehension without list()", "panoptica/instance_matcher.py",
      [("    ref_matched_labels = []\n    label_counter", "    label_counter"),
       ("    ref_matched_labels = list([r for r in ref_labels if r in pred_labelmap.values()])", "    ref_matched_labels = [r for r in ref_labels if r in pred_labelmap.values()]")], ["C04"]),
+    ("calculate_all through the _calc helper", "panoptica/panoptica_result.py",
+     [("            try:\n                v = getattr(self, k)\n            except Exception as e:\n                metric_errors[k] = e\n",
+       "            failed, outcome = self._calc(k, v)\n            if failed:\n                metric_errors[k] = outcome\n")], ["C02"]),
+    ("to_dict written as an explicit loop", "panoptica/panoptica_result.py",
+     [("        return {\n            k: getattr(self, v.id)\n            for k, v in self._evaluation_metrics.items()\n            if (v._error == False and v._was_calculated)\n        }",
+       "        exported = {}\n        for k, v in self._evaluation_metrics.items():\n            if not v._was_calculated or v._error:\n                continue\n            exported[k] = getattr(self, v.id)\n        return exported")], ["C02"]),
+    ("pair copy through self.__class__ and named locals", "panoptica/utils/processing_pair.py",
+     [("        return type(self)(\n            prediction_arr=self._prediction_arr,\n            reference_arr=self._reference_arr,\n        )  # type:ignore",
+       "        pred, ref = self._prediction_arr, self._reference_arr\n        return self.__class__(prediction_arr=pred, reference_arr=ref)  # type:ignore")], ["C04"]),
+    ("handler constructor stores a private copy of the table it is given", "panoptica/utils/edge_case_handling.py",
+     [("        ] = listmetric_zeroTP_handling\n        self.__empty_list_std", "        ] = dict(listmetric_zeroTP_handling)\n        self.__empty_list_std")], ["C08"]),
+    ("summary dict built with explicit loops", "panoptica/panoptica_statistics.py",
+     [("        summary_dict = {\n            g: {m: self.get_summary(g, m) for m in self.__metricnames}\n            for g in self.__groupnames\n        }",
+       "        summary_dict = {}\n        for g in self.__groupnames:\n            per_metric = {}\n            for m in self.__metricnames:\n                per_metric[m] = self.get_summary(g, m)\n            summary_dict[g] = per_metric")], ["C20"]),
 ]
 
 
